@@ -101,6 +101,7 @@ class Profile:
     forward_refs: bool = True  # dependencies on tasks that are declared later in the file
     unsched: bool = False  # sprinkle unschedulable leaves: never-working resource, cycles, group allocations
     container_work: bool = False  # containers that carry effort / allocate themselves
+    maxgap: bool = False  # some gapped edges carry maxgapduration instead of gapduration (C15 only)
     local_ids: bool = False  # children of different containers share local ids (c0, c1, ...); full paths stay unique
     dup_edges: bool = False  # the same pair of tasks connected by a depends and a precedes statement with different gaps
     durs: list = field(default_factory=list)  # explicit (n, unit) project lengths to sample from (overrides weeks)
@@ -314,8 +315,14 @@ def project_specs(draw, pf: Profile):
             g.limits = _limits(draw, res_min)
         if pf.calendars and draw(st.booleans()):
             # the group declares the calendar; its members inherit it (they have none of their own)
-            g.hours = _hours(draw, res_min, pf.crossmid)
-            for c in g.children:
+            if spec.shifts and draw(st.booleans()):
+                g.shift = draw(st.sampled_from([s.id for s in spec.shifts]))  # by reference instead of inline
+            else:
+                g.hours = _hours(draw, res_min, pf.crossmid)
+            keep = draw(st.integers(0, len(g.children)))  # one member may keep a calendar of its own: the nearest statement wins
+            for ci, c in enumerate(g.children):
+                if ci == keep and (c.hours is not None or c.shift is not None):
+                    continue
                 c.hours = None
                 c.shift = None
                 if not pf.zones:
@@ -491,6 +498,8 @@ def project_specs(draw, pf: Profile):
                     d.gap = (1, unit)
                 else:
                     d.gap = (draw(st.integers(1, 3)), unit)
+            if pf.maxgap and d.gap and d.gap[1] in ("min", "h") and draw(st.integers(0, 3)) == 0:
+                d.gapkind = "maxgapduration"  # (only compared between spellings: C15)
             if pf.onstart and forward_project and draw(st.integers(0, 5)) == 0:
                 d.onstart = True
             if pf.precedes and not d.gap and not d.onstart and draw(st.integers(0, 3)) == 0:
